@@ -46,17 +46,16 @@ class HangError(Exception):
 
 # CPU seconds (ITIMER_VIRTUAL: independent of the load of the machine); the front end needs
 # well under a second for the module sets used here
-CPU_LIMIT = float(os.environ.get("VERIF_C12_CPU_LIMIT", "10"))
+CPU_LIMIT = float(os.environ.get("VERIF_C12_CPU_LIMIT", "3"))
 
 
 def _on_alarm(_signum, _frame):
     raise _Alarm()
 
 
-def limited(fn):
-    """fn() under the CPU-time limit; a HangError instead of a result if it is exceeded."""
+def _limited_once(fn, seconds):
     old = signal.signal(signal.SIGVTALRM, _on_alarm)
-    signal.setitimer(signal.ITIMER_VIRTUAL, CPU_LIMIT)
+    signal.setitimer(signal.ITIMER_VIRTUAL, seconds)
     try:
         return fn()
     except _Alarm as a:
@@ -64,16 +63,37 @@ def limited(fn):
         for fr in traceback.extract_tb(a.__traceback__):
             if os.sep + os.path.join("compiler", "front_end") + os.sep in fr.filename:
                 site = "%s:%s" % (os.path.basename(fr.filename), fr.name)
-        raise HangError(site, CPU_LIMIT) from None
+        raise HangError(site, seconds) from None
     finally:
         signal.setitimer(signal.ITIMER_VIRTUAL, 0)
         signal.signal(signal.SIGVTALRM, old)
 
 
+def limited(make_fn):
+    """`make_fn()` returns the call to make (on fresh copies of its inputs); it is made under the
+    CPU-time limit.  If the limit is exceeded the call is repeated once with four times the
+    allowance and the cyclic garbage collector switched off (with some GB of retained IRs a few
+    full collections can eat seconds of CPU time inside one call); only if that does not come
+    back either the outcome is a HangError."""
+    try:
+        return _limited_once(make_fn(), CPU_LIMIT)
+    except HangError:
+        pass
+    import gc
+    was = gc.isenabled()
+    gc.collect()
+    gc.disable()
+    try:
+        return _limited_once(make_fn(), 4 * CPU_LIMIT)
+    finally:
+        if was:
+            gc.enable()
+
+
 def compile_all(files):
     """The whole front end, under the CPU-time limit."""
     try:
-        return limited(lambda: emb.compile_text(files))
+        return limited(lambda: (lambda: emb.compile_text(files)))
     except HangError as h:
         return None, [], h
 
@@ -89,8 +109,10 @@ def parse_files(files, main="m.emb"):
 def run_to(ir0, stop):
     """process_ir on a deep copy.  Returns (ir or None, errors, exception or None)."""
     try:
-        ir = ir_data_utils.copy(ir0)
-        ir, errors = limited(lambda: glue.process_ir(ir, stop))
+        def make():
+            ir = ir_data_utils.copy(ir0)
+            return lambda: glue.process_ir(ir, stop)
+        ir, errors = limited(make)
         return ir, errors, None
     except Exception as e:  # noqa: BLE001
         return None, [], e
@@ -309,7 +331,7 @@ def observe(files, main="m.emb"):
     # the resolver's own error list, before glue.process_ir splits off the groups with a
     # synthetic location
     try:
-        raw = limited(lambda: symbol_resolver.resolve_symbols(ir_data_utils.copy(pre)))
+        raw = limited(lambda: (lambda: symbol_resolver.resolve_symbols(ir_data_utils.copy(pre))))
         o["s1_raw"] = real_errors(raw)
         user, hidden = emb_error.split_errors(raw)
         o["hidden_only"] = bool(hidden) and not user
@@ -1803,6 +1825,9 @@ def evaluate(chk, cases, model_ok, label):
                                         "expected": "a visible error"}, key=HIDDEN_KEY)
         if len(chk.violations) + len(chk.known_printed) != nviol:
             failing.add(ci)
+        # the IRs are not needed for the comparison with the model: free them now
+        for k in ("pre", "s1_ir", "s2_ir", "ref_nodes", "fref_nodes"):
+            o.pop(k, None)
     if not model_ok:
         return obs
     idx = [i for i, o in enumerate(obs) if o["stage"] == "resolver"]
